@@ -17,10 +17,29 @@ for cfg in ("std", "serde", "nostd"):
         if f.get("kind") == "Closure":
             continue
         keys.add(f["key"])
-        sigs.setdefault(f["key"], {"kind": f.get("kind"), "inputs": [t["s"] for t in f.get("inputs", [])],
-                                   "output": (f.get("output") or {}).get("s"), "exported": bool(f.get("exported")),
-                                   "name": f.get("name")})
+        callees = set()
+        fam = [g for g in j["fns"] if g["key"] == f["key"] or (g.get("kind") == "Closure" and (g.get("parent_fn") or "").startswith(f["key"]))]
+        for g in fam:
+            for b in (g.get("body") or {}).get("blocks", []):
+                t = b["term"]
+                if t["k"] == "call" and "func" in t:
+                    fk = t["func"]
+                    r = fk.get("resolved")
+                    k = r["key"] if r and r.get("local") else (fk["key"] if fk.get("local") else None)
+                    if k:
+                        callees.add(k)
+        e = sigs.setdefault(f["key"], {"kind": f.get("kind"), "inputs": [t["s"] for t in f.get("inputs", [])],
+                                       "output": (f.get("output") or {}).get("s"), "exported": bool(f.get("exported")),
+                                       "name": f.get("name"), "callees": []})
+        e["callees"] = sorted(set(e["callees"]) | callees)
 old = set(json.load(open(os.path.join(HERE, "rules", "known_functions.json"))))
 print("inventory: %d keys (was %d); added %s; removed %s" % (len(keys), len(old), sorted(keys - old)[:10], sorted(old - keys)[:10]))
+adts = set()
+for cfg in ("std", "serde", "nostd"):
+    text = open(facts_for("/repo", cfg)).read()
+    text = re.sub(r'(?<![A-Za-z0-9_])(?:core|alloc)::', 'std::', text)
+    for a in json.loads(text)["adts"]:
+        adts.add(a["path"])
+json.dump(sorted(adts), open(os.path.join(HERE, "rules", "known_adts.json"), "w"), indent=0)
 json.dump(sorted(keys), open(os.path.join(HERE, "rules", "known_functions.json"), "w"), indent=0)
 json.dump(sigs, open(os.path.join(HERE, "rules", "known_signatures.json"), "w"), indent=0, sort_keys=True)
